@@ -22,7 +22,7 @@ from typing import Any, Callable, Dict, List, Optional, Tuple
 from harness.lib import crash, protocol as P
 
 LEVEL = "proof"
-THEOREMS = ["C03_crash_atomic", "C03_readable", "C03_writable", "C03_lock_released"]
+THEOREMS = ["C03_crash_atomic", "C03_readable", "C03_writable", "C03_lock_released", "C03_pointer_spelling_invisible"]
 MANIFEST_ENTRY = {
     "level_text": "Crash atomicity proved in Coq over the commit machine with crash events at every step of any number of "
                   "concurrent operations: pointer-named table = serial application of flips (pre/post, post iff flipped), "
@@ -30,7 +30,9 @@ MANIFEST_ENTRY = {
                   "tied to the code by fork-and-kill at EVERY storage-level / OS-level step of create, append, delete_files, "
                   "expire, delete_snapshot, garbage_collect and of transactions COMBINING kinds (append+expire, delete+append, "
                   "delete+append+expire, two appends: one operation, one pointer advance) on tables with 0..3 prior snapshots, each followed by reopen, "
-                  "full read of every retained snapshot, follow-up append and grace-0 collection",
+                  "full read of every retained snapshot, follow-up append and grace-0 collection; the pre-state's pointer is taken in "
+                  "every accepted spelling (file name + newline / CR LF / blanks), which the regenerated parser provably cannot "
+                  "tell apart (C03_pointer_spelling_invisible: parse and resolution depend on the stripped content only)",
     "level_note": "scope of the THEOREMS: commit-protocol crashes (append, delete_files, expire, delete_snapshot and combined "
                   "transactions are all one commit of the machine); 'reopen' in Coq is the table the pointer names (pointer intact: "
                   "recovery after pointer loss is C10); crashes of table CREATION, of a COLLECTION, at the OS-level sub-steps of one "
